@@ -25,3 +25,150 @@ Theorem styles_independent : forall sts o i, i < length sts -> touches i o = fal
   nth_error (fst (style_step sts o)) i = nth_error sts i.
 Proof. exact style_step_other. Qed.
 Print Assumptions styles_independent.
+
+(* ================= the hypothesis restores_effective discharged (Proofs/AppStateRestoreLemmas.v) =================
+   The override the restore records is keyed by the path of names; it is harmless as soon as the commands that share
+   a path share their leniency (lenient_by_path), in particular when sibling commands have distinct names at every
+   level (siblings_distinct, a boolean on the application).  build_app refuses a second top-level command with a name
+   already present and keeps all the sub-commands of a command, so for a built application the condition is
+   cfg_subs_distinct: the enabled sub-commands of every enabled command of the CONFIGURATION have distinct names. *)
+From Clikit Require Import Proofs.AppStateRestoreLemmas.
+
+Theorem restores_effective_holds : forall st a toks, siblings_distinct a = true -> restores_effective st a toks.
+Proof. exact AppStateRestoreLemmas.restores_effective_holds. Qed.
+Print Assumptions restores_effective_holds.
+
+(* the weakest form proved: commands at the same path agree on their leniency *)
+Theorem restores_effective_by_path : forall st a toks, lenient_by_path a -> restores_effective st a toks.
+Proof. exact AppStateRestoreLemmas.restores_effective_by_path. Qed.
+Print Assumptions restores_effective_by_path.
+
+Theorem leniency_restored_unconditional : forall st a toks, siblings_distinct a = true ->
+  apply_state (fst (run_on st a toks)) a = apply_state st a.
+Proof. exact run_on_state_holds. Qed.
+Print Assumptions leniency_restored_unconditional.
+
+Theorem runs_independent_unconditional : forall a lines, siblings_distinct a = true ->
+  runs_on [] a lines = map (fun l => snd (run_on [] a l)) lines.
+Proof. exact runs_independent_fresh. Qed.
+Print Assumptions runs_independent_unconditional.
+
+Theorem runs_independent_unconditional_from : forall a lines st, siblings_distinct a = true ->
+  apply_state st a = apply_state [] a ->
+  runs_on st a lines = map (fun l => snd (run_on [] a l)) lines.
+Proof. exact runs_independent_from. Qed.
+Print Assumptions runs_independent_unconditional_from.
+
+(* built applications: the top level is distinct by construction, the sub-commands by the configuration *)
+Theorem built_siblings_distinct : forall cfg a, build_app cfg = Ok a -> cfg_subs_distinct cfg = true ->
+  siblings_distinct a = true.
+Proof. exact build_app_siblings_distinct. Qed.
+Print Assumptions built_siblings_distinct.
+
+Theorem restores_effective_built : forall cfg a st toks, build_app cfg = Ok a -> cfg_subs_distinct cfg = true ->
+  restores_effective st a toks.
+Proof. exact AppStateRestoreLemmas.restores_effective_built. Qed.
+Print Assumptions restores_effective_built.
+
+Theorem runs_independent_built : forall cfg a lines, build_app cfg = Ok a -> cfg_subs_distinct cfg = true ->
+  runs_on [] a lines = map (fun l => snd (run_on [] a l)) lines.
+Proof. exact AppStateRestoreLemmas.runs_independent_built. Qed.
+Print Assumptions runs_independent_built.
+
+Theorem runs_independent_built_from : forall cfg a lines st, build_app cfg = Ok a -> cfg_subs_distinct cfg = true ->
+  apply_state st a = apply_state [] a ->
+  runs_on st a lines = map (fun l => snd (run_on [] a l)) lines.
+Proof. exact AppStateRestoreLemmas.runs_independent_built_from. Qed.
+Print Assumptions runs_independent_built_from.
+
+(* a configuration whose commands have no sub-commands meets the condition: nothing is asked of it *)
+Theorem runs_independent_built_flat : forall cfg a lines, build_app cfg = Ok a ->
+  forallb (fun c => match c_subs c with [] => true | _ => false end) (ac_cmds cfg) = true ->
+  runs_on [] a lines = map (fun l => snd (run_on [] a l)) lines.
+Proof. intros cfg a lines Hb Hf. exact (AppStateRestoreLemmas.runs_independent_built cfg a lines Hb (cfg_flat_distinct cfg Hf)). Qed.
+Print Assumptions runs_independent_built_flat.
+
+(* ---- non-vacuity: a built application, a history with two help requests around a strict and a lenient command ---- *)
+Definition C17_COMMAND : str := [99;111;109;109;97;110;100]%N.       (* command *)
+Definition C17_GRP : str := [103;114;112]%N.                          (* grp *)
+Definition C17_STRICT : str := [115]%N.                               (* s *)
+Definition C17_LOOSE : str := [108]%N.                                (* l *)
+Definition C17_X : str := [120]%N.                                    (* x *)
+Definition C17_EXTRA : str := [101;120;116;114;97]%N.                 (* extra *)
+Definition c17_o_help : opt := {| o_long := S_help; o_short := Some [104%N]; o_flags := 4 + 2 + 128; o_default := VNone |}.
+Definition c17_a_command : arg := {| a_name := C17_COMMAND; a_flags := 2 + 4 + 16; a_default := VList [] |}.
+Definition c17_help : cmd := Cmd S_help [] true false true false [] [c17_a_command] [].
+Definition c17_grp : cmd :=
+  Cmd C17_GRP [] false false true false [] []
+    [Cmd C17_STRICT [] false false true false [] [] [];      (* strict: an extra token is refused *)
+     Cmd C17_LOOSE [] false false true true [] [] []].       (* lenient: an extra token is let through *)
+Definition c17_cfg : appcfg := {| ac_opts := [c17_o_help]; ac_args := []; ac_cmds := [c17_help; c17_grp] |}.
+Definition c17_history : list (list str) :=
+  [[C17_GRP; C17_STRICT; C17_EXTRA]; [C17_GRP; C17_LOOSE; C17_EXTRA];
+   [S_help; C17_GRP; C17_STRICT];                                       (* help request 1: the strict command *)
+   [C17_GRP; C17_STRICT; C17_EXTRA];
+   [C17_GRP; C17_LOOSE; T_help];                                        (* help request 2: the lenient command *)
+   [C17_GRP; C17_LOOSE; C17_EXTRA]; [C17_GRP; C17_STRICT; C17_EXTRA]].
+
+Example ex_runs_independent_built :
+  cfg_subs_distinct c17_cfg = true /\
+  match build_app c17_cfg with
+  | Ok a =>
+    siblings_distinct a = true /\
+    map sm_action (runs_on [] a c17_history) =
+      [AError CannotParse; AHandler [C17_GRP; C17_LOOSE];
+       AHelpCmd [C17_GRP; C17_STRICT];
+       AError CannotParse;
+       AHelpCmd [C17_GRP; C17_LOOSE];
+       AHandler [C17_GRP; C17_LOOSE]; AError CannotParse] /\
+    (* both help requests did record an override, and it is the effective value *)
+    fst (run_on [] a [S_help; C17_GRP; C17_STRICT]) = [([C17_GRP; C17_STRICT], false)] /\
+    fst (run_on [([C17_GRP; C17_STRICT], false)] a [C17_GRP; C17_LOOSE; T_help]) =
+      [([C17_GRP; C17_LOOSE], true); ([C17_GRP; C17_STRICT], false)] /\
+    runs_on [] a c17_history = map (fun l => snd (run_on [] a l)) c17_history
+  | Err _ => False
+  end.
+Proof. vm_compute. repeat split; reflexivity. Qed.
+(* the same equation, from the theorem: its hypotheses are met by this configuration *)
+Example ex_runs_independent_built_by_theorem : forall a, build_app c17_cfg = Ok a ->
+  runs_on [] a c17_history = map (fun l => snd (run_on [] a l)) c17_history /\
+  (forall st toks, restores_effective st a toks).
+Proof.
+  intros a Hb. assert (cfg_subs_distinct c17_cfg = true) as Hc by (vm_compute; reflexivity). split.
+  - exact (runs_independent_built c17_cfg a c17_history Hb Hc).
+  - intros st toks. exact (restores_effective_built c17_cfg a st toks Hb Hc).
+Qed.
+
+(* ---- REFUTED without the condition: two sub-commands with the same name and different leniency ----
+   build_cmd keeps both; the named collection (walk) resolves "grp x" to the LAST one (lenient), find_path / eff read
+   the FIRST one (strict): the help request "help grp x" records ([grp; x], false), apply_cmd applies it to both, and
+   the later line "grp x extra" that ran the handler before is now refused.
+   This is a property of the MODEL's path-keyed override table only: in the Python code the override lives on the
+   CommandConfig object of the command that was resolved, so the restore is exact there (observed: the same history on
+   ConsoleApplication gives "handled" three times).  See the report of branch c17-restore. *)
+Definition c17_dup_grp : cmd :=
+  Cmd C17_GRP [] false false true false [] []
+    [Cmd C17_X [] false false true false [] [] [];
+     Cmd C17_X [] false false true true [] [] []].
+Definition c17_dup_cfg : appcfg := {| ac_opts := [c17_o_help]; ac_args := []; ac_cmds := [c17_help; c17_dup_grp] |}.
+
+Example runs_independent_refuted_duplicate_subcommands :
+  cfg_subs_distinct c17_dup_cfg = false /\
+  match build_app c17_dup_cfg with
+  | Ok a =>
+    siblings_distinct a = false /\
+    map sm_action (runs_on [] a [[C17_GRP; C17_X; C17_EXTRA]; [S_help; C17_GRP; C17_X]; [C17_GRP; C17_X; C17_EXTRA]]) =
+      [AHandler [C17_GRP; C17_X]; AHelpCmd [C17_GRP; C17_X]; AError CannotParse] /\
+    sm_action (snd (run_on [] a [C17_GRP; C17_X; C17_EXTRA])) = AHandler [C17_GRP; C17_X] /\
+    fst (run_on [] a [S_help; C17_GRP; C17_X]) = [([C17_GRP; C17_X], false)]
+  | Err _ => False
+  end.
+Proof. vm_compute. repeat split; reflexivity. Qed.
+
+Example restores_effective_refuted_duplicate_subcommands : forall a, build_app c17_dup_cfg = Ok a ->
+  ~ restores_effective [] a [S_help; C17_GRP; C17_X].
+Proof.
+  intros a Hb Hres. apply leniency_restored in Hres.
+  apply (f_equal (fun ap => sm_action (run_summary false ap [C17_GRP; C17_X; C17_EXTRA]))) in Hres.
+  vm_compute in Hb. injection Hb as <-. vm_compute in Hres. discriminate Hres.
+Qed.
